@@ -20,13 +20,20 @@ from .kernel import norm, op_place
 MAX_PATHS = 60000
 
 
+ITER_ADAPTORS = ('iter_filter', 'iter_map', 'iter_filter_map')
+
+
 class PathLimit(Exception):
     pass
 
 
 OPTION = 'std::option::Option'
 RESULT = 'std::result::Result'
-STD_VARIANTS = {OPTION: ['None', 'Some'], RESULT: ['Ok', 'Err']}
+CONTROLFLOW = 'std::ops::ControlFlow'
+MAPENTRY = 'dashmap::Entry'
+STD_VARIANTS = {OPTION: ['None', 'Some'], RESULT: ['Ok', 'Err'], CONTROLFLOW: ['Continue', 'Break'], MAPENTRY: ['Occupied', 'Vacant']}
+OCC_GET_MUT = 'dashmap::OccupiedEntry::get_mut'
+VAC_INSERT = 'dashmap::VacantEntry::insert'
 
 # external calls that return (a view of) their first argument
 IDENTITY_CALLS = {
@@ -735,6 +742,9 @@ class SymEx:
 
         st.frames[tg.nid] = env
         st.env = env
+        # a new activation: block visits of an earlier, finished activation of the same callee at this depth are not loop revisits
+        for vk in [vk for vk in st.visits if vk[0] == tg.nid and vk[2] == depth + 1]:
+            del st.visits[vk]
         self._exec(tg, 0, st, depth + 1, out, kk)
 
     def call_closure(self, clo, cargs, st, depth, out, k):
@@ -831,12 +841,137 @@ class SymEx:
             if self.call_closure(clo, [item], st, depth, out, lambda s2, rv: resume(s2, ('c', '()'))):
                 return 'handled'
             return ('c', '()')
+        if ext.startswith('dashmap::') and ext.endswith(('Entry::and_modify', 'Entry::or_insert_with', 'Entry::or_insert')) and len(args) == 2:
+            # the closure forms of the map-entry API are the two arms of `match entry { Occupied(o) => .., Vacant(v) => .. }`:
+            # and_modify runs its closure on the occupied slot, or_insert_with stores its closure's result into the vacant one
+            E = self.load(st, args[0], b)
+            clo = (raw or args)[1]
+            d = ('discr', E)
+            if d in st.known:
+                cases = [(st, st.known[d])]
+            else:
+                s_v = st.fork()
+                s_v.conds.append((d, 1)); s_v.known[d] = 1
+                st.conds.append((d, 0)); st.known[d] = 0
+                cases = [(st, 0), (s_v, 1)]
+            for s2, tag in cases:
+                if last == 'and_modify':
+                    if tag == 0:
+                        slot = ('call', OCC_GET_MUT, (('payload', E, 'Occupied', 0),))
+                        s2.events.append(('call', OCC_GET_MUT, (('payload', E, 'Occupied', 0),), line, b.nid, None, slot))
+                        self.apply_fn(clo, [slot], s2, depth, out, lambda s3, rv, _E=E: resume(s3, _E))
+                    else:
+                        resume(s2, E)
+                else:
+                    if tag == 0:
+                        resume(s2, ('call', 'dashmap::OccupiedEntry::into_ref', (('payload', E, 'Occupied', 0),)))
+                    else:
+                        def kins(s3, rv, _E=E):
+                            s3.events.append(('call', VAC_INSERT, (('payload', _E, 'Vacant', 0), rv), line, b.nid, None, ('call', VAC_INSERT, (('payload', _E, 'Vacant', 0), rv))))
+                            resume(s3, ('call', VAC_INSERT, (('payload', _E, 'Vacant', 0), rv)))
+                        if last == 'or_insert':
+                            kins(s2, args[1])
+                        else:
+                            self.apply_fn(clo, [], s2, depth, out, kins)
+            return 'handled'
+        if (ext.endswith('std::ops::Try>::branch') or ext == 'std::ops::Try::branch') and args:
+            # the `?` operator: Some(x)/Ok(x) -> Continue(x); None/Err(e) -> Break(residual)
+            o = self.load(st, args[0], b)
+            is_opt = 'option::Option' in ext or (t.get('self_ty') or {}).get('adt') == OPTION or (o[0] == 'aggr' and o[1] == OPTION)
+            is_res = 'result::Result' in ext or (t.get('self_ty') or {}).get('adt') == RESULT or (o[0] == 'aggr' and o[1] == RESULT)
+            if is_opt:
+                for (s2, is_some, payload) in self.option_cases(st, o):
+                    resume(s2, ('aggr', CONTROLFLOW, 'Continue', (payload,)) if is_some else ('aggr', CONTROLFLOW, 'Break', (NONE,)))
+                return 'handled'
+            if is_res:
+                if o[0] == 'aggr' and o[1] == RESULT:
+                    return ('aggr', CONTROLFLOW, 'Continue', (o[3][0],)) if o[2] == 'Ok' else ('aggr', CONTROLFLOW, 'Break', (o,))
+                d = ('discr', o)
+                if d in st.known:
+                    cases = [(st, st.known[d])]
+                else:
+                    s_err = st.fork()
+                    s_err.conds.append((d, 1)); s_err.known[d] = 1
+                    st.conds.append((d, 0)); st.known[d] = 0
+                    cases = [(s_err, 1), (st, 0)]
+                for s2, tag in cases:
+                    if tag == 0:
+                        resume(s2, ('aggr', CONTROLFLOW, 'Continue', (self.load(s2, ('payload', o, 'Ok', 0)),)))
+                    else:
+                        resume(s2, ('aggr', CONTROLFLOW, 'Break', (('aggr', RESULT, 'Err', (self.load(s2, ('payload', o, 'Err', 0)),)),)))
+                return 'handled'
+        if (ext.endswith('std::ops::FromResidual>::from_residual') or ext.endswith('FromResidual::from_residual')) and args:
+            return self.load(st, args[0], b)
+        if ext.startswith('std::iter::Iterator::') and args:
+            # lazy adaptors are terms; `next` / `find` / `find_map` on them pull one abstract item through the closures
+            # (items the predicate rejects are skipped by the adaptor itself: only the accepted item and exhaustion are outcomes)
+            if last in ('filter', 'map', 'filter_map') and len(args) == 2 and (raw or args)[1][0] in ('closure', 'fn'):
+                return ('iter_' + last, args[0], (raw or args)[1])
+            if last in ('find', 'find_map') and len(args) == 2 and (raw or args)[1][0] in ('closure', 'fn'):
+                it = ('iter_filter' if last == 'find' else 'iter_filter_map', args[0], (raw or args)[1])
+                self.iter_next(b, st, it, depth, out, line, resume)
+                return 'handled'
+            if last == 'next' and isinstance(args[0], tuple) and args[0][0] in ITER_ADAPTORS:
+                self.iter_next(b, st, args[0], depth, out, line, resume)
+                return 'handled'
         if ext in ('std::cmp::Ord::max', 'std::cmp::Ord::min', 'std::cmp::max', 'std::cmp::min') and len(args) == 2:
             return ('bin', last, args[0], args[1])
         if last in ('saturating_add', 'saturating_sub', 'wrapping_add', 'wrapping_sub', 'wrapping_mul',
                     'saturating_mul') and len(args) == 2 and ext.startswith(('core::num', 'std::')):
             return ('bin', last, args[0], args[1])
         return None
+
+    def assume_bool(self, st, term, truth):
+        """Constrain the path by `term == truth`; False if that contradicts what the path knows."""
+        d = self.simplify(st, term)
+        if d[0] == 'c':
+            return bool(d[1]) == truth
+        if truth:
+            self.assume(st, d, [0], [(0, None)], True)
+        else:
+            self.assume(st, d, 0, [(0, None)], False)
+        return True
+
+    def apply_fn(self, clo, cargs, st, depth, out, k):
+        if clo[0] == 'fn':
+            fn = clo[1]
+            if fn in self.prog.bodies and self.should_inline(fn, depth):
+                self.inline(self.prog.bodies[fn], list(cargs), st, depth, out, k)
+            else:
+                k(st, ('call', fn, tuple(cargs)))
+            return
+        if not self.call_closure(clo, list(cargs), st, depth, out, k):
+            k(st, ('call', 'callback', tuple([clo] + list(cargs))))
+
+    def iter_next(self, b, st, it, depth, out, line, k):
+        """One `next()` of a (possibly adapted) iterator: k(state, Option term)."""
+        kind = it[0] if isinstance(it, tuple) and it else None
+        if kind in ITER_ADAPTORS:
+            clo = it[2]
+
+            def k1(s, opt):
+                if opt == NONE:
+                    k(s, NONE); return
+                payload = opt[3][0]
+                if kind == 'iter_map':
+                    self.apply_fn(clo, [payload], s, depth, out, lambda s2, rv: k(s2, some(rv)))
+                elif kind == 'iter_filter':
+                    def kf(s2, rv):
+                        if self.assume_bool(s2, rv, True):
+                            k(s2, some(payload))
+                    self.apply_fn(clo, [payload], s, depth, out, kf)
+                else:
+                    def kfm(s2, rv):
+                        for (s3, is_some, pl) in self.option_cases(s2, rv):
+                            if is_some:
+                                k(s3, some(pl))
+                    self.apply_fn(clo, [payload], s, depth, out, kfm)
+            self.iter_next(b, st, it[1], depth, out, line, k1)
+            return
+        nxt = self.call_term(st, 'std::iter::Iterator::next', (it,), [])
+        st.events.append(('call', 'std::iter::Iterator::next', (it,), line, b.nid, None, nxt))
+        for (s2, is_some, pl) in self.option_cases(st, nxt):
+            k(s2, some(pl) if is_some else NONE)
 
     def untuple(self, v):
         if v[0] == 'tuple':
